@@ -2528,7 +2528,11 @@ pub fn parse_ml_predict(input: &str) -> IResult<&str, MLPredictClause<'_>> {
 
     // Extract SELECT variables
     if let Some(select_idx) = input_query.find("SELECT") {
-        if let Some(where_idx) = input_query.find("WHERE") {
+        // the WHERE that closes this SELECT clause, never one that precedes it
+        if let Some(where_idx) = input_query[select_idx + 6..]
+            .find("WHERE")
+            .map(|idx| idx + select_idx + 6)
+        {
             let select_clause = &input_query[select_idx + 6..where_idx].trim();
             // Parse SELECT variables (simplified version - in real code you would use your actual SELECT parser)
             let vars: Vec<&str> = select_clause.split_whitespace().collect();
